@@ -203,7 +203,7 @@ def run(ctx):
             cells.append((name, "".join(ts)))
     if ctx.tier == "quick":
         grids = [(3, "bn128")]
-        shards = [dict(seed=ctx.seed * 1000 + i, n_examples=40) for i in range(16)]
+        shards = [dict(seed=ctx.seed * 1000 + i, n_examples=150) for i in range(16)]
     else:
         grids = [(2, 67), (3, "bn128"), (4, "bls12-381")]
         shards = [dict(seed=ctx.seed * 1000 + 100 + i, n_examples=3000) for i in range(16)]
